@@ -99,11 +99,34 @@ pub fn api_contract_db_named(buf: *mut u8, cap: usize, region_len: usize, name: 
 }
 
 static mut CONTRACT_REGION: Option<Region> = None;
+static mut CONTRACT_REGION2: Option<Region> = None;
+static mut CONTRACT_CREATES: usize = 0;
+/// Regions handed out by `create_region_if_needed_stub`: `a` for the first request, `b` (if any) for later ones.
+pub fn set_contract_regions(a: &Region, b: Option<&Region>) {
+    unsafe {
+        CONTRACT_REGION = Some(a.clone());
+        CONTRACT_REGION2 = b.cloned();
+        CONTRACT_CREATES = 0;
+        CONTRACT_REMOVED = false;
+    }
+}
 /// Stub for `Database::create_region_if_needed` in import harnesses: "the vector's region exists"
 /// (possibly with length 0); name resolution is not part of what those harnesses decide.
+#[allow(static_mut_refs)]
 pub fn create_region_if_needed_stub(_db: &Database, _id: &str) -> Result<Region> {
-    #[allow(static_mut_refs)]
-    Ok(unsafe { CONTRACT_REGION.as_ref().unwrap().clone() })
+    anydb_verif_platform::ghost::log(anydb_verif_platform::ghost::K::Pause, 78, 0, 0);
+    unsafe {
+        if CONTRACT_REMOVED {
+            return Err(Error::RegionAlreadyExists);
+        }
+        let first = CONTRACT_CREATES == 0;
+        CONTRACT_CREATES += 1;
+        if first || CONTRACT_REGION2.is_none() {
+            Ok(CONTRACT_REGION.as_ref().unwrap().clone())
+        } else {
+            Ok(CONTRACT_REGION2.as_ref().unwrap().clone())
+        }
+    }
 }
 /// Stub for `Database::get_region` in import harnesses: no auxiliary (holes) region exists.
 pub fn get_region_none_stub(_db: &Database, _id: &str) -> Option<Region> {
@@ -114,13 +137,28 @@ pub fn get_region_none_stub(_db: &Database, _id: &str) -> Option<Region> {
 /// event (Pause 77) instead of running the allocator.
 pub fn remove_region_if_exists_stub(_db: &Database, _id: &str) -> Result<()> {
     anydb_verif_platform::ghost::log(anydb_verif_platform::ghost::K::Pause, 77, 0, 0);
+    unsafe { CONTRACT_REMOVED = true };
     Ok(())
 }
+/// Set by the removal stub: the re-creation that follows a discard is cut (the create stub fails), so
+/// that a forced-import harness decides *whether* data is discarded without paying for a second import.
+static mut CONTRACT_REMOVED: bool = false;
 pub fn ghost_removals() -> usize {
     let l = anydb_verif_platform::ghost::get();
     let mut n = 0;
     anydb_verif_platform::unroll20!(i, {
         if i < l.n && l.k[i] == anydb_verif_platform::ghost::K::Pause && l.a[i] == 77 {
+            n += 1;
+        }
+    });
+    n
+}
+/// Number of `create_region_if_needed` requests seen by the stub above.
+pub fn ghost_creates() -> usize {
+    let l = anydb_verif_platform::ghost::get();
+    let mut n = 0;
+    anydb_verif_platform::unroll20!(i, {
+        if i < l.n && l.k[i] == anydb_verif_platform::ghost::K::Pause && l.a[i] == 78 {
             n += 1;
         }
     });
